@@ -128,7 +128,7 @@ class ConcJson:
         if isinstance(o, zx.SStr):
             return zx.shims.concretize_str(o)
         if isinstance(o, zx.SInt):
-            return zx.cur().concretize(o.z)
+            return zx.cur().concretize(o.e)
         if isinstance(o, zx.SBool):
             return bool(o)
         return o
